@@ -20,21 +20,28 @@ Theorem C03_map_rest_exact : forall c, c_kind c = KMap -> 0 < c_W c -> 0 < c_P c
 Proof. exact good_continuation. Qed.
 Print Assumptions C03_map_rest_exact.
 
-(* iterable datasets: FULL statement (target, not yet proved — checked by lockstep correspondence and against
-   torch.utils.data.DataLoader on every run): every schedule yields the column-major interleave of the per-worker batch lists *)
+(* iterable datasets: the FULL statement (proved below as C03_iter_statement_holds; also checked by lockstep correspondence and
+   against torch.utils.data.DataLoader on every run): every schedule yields the column-major interleave of the per-worker batch lists *)
 Definition C03_iter_statement : Prop :=
   forall c, c_kind c = KIter -> 0 < c_W c -> 0 < c_P c -> length (c_shards c) = c_W c -> c_bad c = [] ->
   forall sched, outcomes c (S (length (reference c))) (sdl_fresh c) sched = map OBatch (reference c) ++ [OStop].
 
-(* iterable datasets, MAIN-process side, PROVED for every configuration with snapshot_every_n_steps = 0 (any num_workers > 0,
-   prefetch_factor > 0, any shards incl. empty / uneven ones, any batch_size incl. None, drop_last, rewind habit) and EVERY
-   arrival schedule: one epoch yields exactly the column-major interleave of the workers' batch lists, then StopIteration;
-   no assertion fires, the main process never waits for a result that cannot come, the model's fuel is never exhausted
-   (SdlIterProofs.v: slots of the round-robin walk, retirement on arrival, no starvation of the shrinking window) *)
-Theorem C03_iter_epoch_exact_no_snapshots : forall c, c_kind c = KIter -> 0 < c_W c -> 0 < c_P c -> c_I c = 0 ->
+(* iterable datasets, MAIN-process side, PROVED for every configuration (any num_workers > 0, prefetch_factor > 0, ANY snapshot
+   interval, any shards incl. empty / uneven ones, any batch_size incl. None, drop_last, rewind habit) and EVERY arrival
+   schedule: one epoch yields exactly the column-major interleave of the workers' batch lists, each batch once, then
+   StopIteration; no assertion fires (tasks_outstanding bounds, `assert snapshot`, the alignment assertion of
+   _take_snapshot), the main process never waits for a result that cannot come, the model's fuel is never exhausted.
+   (SdlIterProofs.v: tasks sit at slots of the pure round-robin walk; a worker retires when its end-of-shard notice ARRIVES,
+   its remaining slots contribute nothing; no starvation of the shrinking window; every task handed out at a snapshot
+   boundary was dispatched with a main snapshot.)  This is the statement that was the target C03_iter_statement. *)
+Theorem C03_iter_epoch_exact : forall c, c_kind c = KIter -> 0 < c_W c -> 0 < c_P c ->
   forall sched, outcomes c (S (length (reference c))) (sdl_fresh c) sched = map OBatch (reference c) ++ [OStop].
-Proof. exact iter_epoch_exact_I0. Qed.
-Print Assumptions C03_iter_epoch_exact_no_snapshots.
+Proof. exact iter_epoch_exact. Qed.
+Print Assumptions C03_iter_epoch_exact.
+
+Corollary C03_iter_statement_holds : C03_iter_statement.
+Proof. intros c Hk HW HP _ _ sched. exact (iter_epoch_exact c Hk HW HP sched). Qed.
+Print Assumptions C03_iter_statement_holds.
 
 (* PROVED building block of the iterable statement — the worker side, for every batch size (incl. batch_size=None), drop_last,
    rewind habit and every number of tasks: the answers of a fresh worker to its successive tasks are exactly the batches of
